@@ -163,6 +163,11 @@ Theorem C11_neutral_adjustments_results : forall (k : cost_in) (c : cf_in) (r : 
 Proof. exact neutral_adjustments_cashflow. Qed.
 Print Assumptions C11_neutral_adjustments_results.
 
+(* multiplying every year's cash flow by k (all costs and all sale prices x k) multiplies NPV by k, at every discount rate *)
+Theorem C11_npv_homogeneous : forall (r k : Q) (cf : list Q), npv r (map (Qmult k) cf) == k * npv r cf.
+Proof. exact npv_scale. Qed.
+Print Assumptions C11_npv_homogeneous.
+
 (* ---- non-vacuity ---- *)
 Example ex_scale : let c := Verif.Props.C01.ex1 in
   let '(a, b, _) := lcoe_exec c in let '(a3, b3, _) := lcoe_exec (scale_costs 3 c) in a3 == 3 * a /\ b3 == 3 * b /\ 0 < a.
